@@ -68,6 +68,9 @@ type c13kPod struct {
 	// policy-route only: the IPv4 address was used before and the previous owner's host veth and
 	// host route `A/32 dev <that veth>` are still there (its DEL was lost)
 	PrevOwner bool `json:"prev_owner_route"`
+	// policy-route only: before Setup the host namespace holds the legacy-format rule pair
+	// (see LegacyUnrelated) for this very address
+	LegacyOwn bool `json:"legacy_rules_own"`
 	// exclusive ENI with eth1 only: the ENI of eth1 has, in the host namespace, the ifindex eth0
 	// has inside the pod, so the kernel renumbers it when it is moved in
 	Collide bool `json:"eth1_index_collides"`
@@ -116,7 +119,17 @@ type c13kScenario struct {
 	Decoys       bool      `json:"decoys"`         // wider-prefix rules at the same priorities, installed before any pod
 	NameInDel    bool      `json:"name_in_del"`    // TeardownCfg carries the host veth name (the CNI leaves it empty)
 	EniIndexMode int       `json:"eni_index_mode"` // c13kIdx*
+	// rules in the format older releases wrote, left by a pod that is long gone: `from U iif <veth
+	// that no longer exists> lookup T` (prio 2048) plus the plain `to U lookup main` (prio 512),
+	// U being nobody's address in this case; present before any pod is set up
+	LegacyUnrelated bool `json:"legacy_rules_unrelated"`
 }
+
+// the address of the long-gone pod of LegacyUnrelated (last byte 90: never a pod, gateway or node address)
+var (
+	c13kLegacy4 = net.IPv4(11, 250, 250, 90).To4()
+	c13kLegacy6 = net.ParseIP("2400:fa::5a")
+)
 
 func c13kGen(t *rapid.T) c13kScenario {
 	s := c13kScenario{}
@@ -184,6 +197,7 @@ func c13kGen(t *rapid.T) c13kScenario {
 		p.Wide16 = rapid.Bool().Draw(t, "wide16")
 		p.Stale = s.DP == c13DPPolicy && rapid.IntRange(0, 2).Draw(t, "stale") == 0
 		p.PrevOwner = s.DP == c13DPPolicy && rapid.IntRange(0, 2).Draw(t, "prevowner") == 0
+		p.LegacyOwn = s.DP == c13DPPolicy && rapid.IntRange(0, 3).Draw(t, "legacyown") == 0
 		if s.DP == c13DPExclusive && rapid.IntRange(0, 2).Draw(t, "multi") == 0 {
 			p.Multi = true
 			p.NoPeer = rapid.Bool().Draw(t, "nopeer-multi")
@@ -242,6 +256,7 @@ func c13kGen(t *rapid.T) c13kScenario {
 	}
 	s.Decoys = rapid.IntRange(0, 3).Draw(t, "decoys") != 0
 	s.NameInDel = rapid.Bool().Draw(t, "nameindel")
+	s.LegacyUnrelated = rapid.IntRange(0, 2).Draw(t, "legacyunrelated") == 0
 	s.EniIndexMode = rapid.SampledFrom([]int{c13kIdxReal, c13kIdxReal, c13kIdxReal, c13kIdxZero, c13kIdxStale}).Draw(t, "eniindexmode")
 	return s
 }
@@ -251,6 +266,7 @@ func c13kGen(t *rapid.T) c13kScenario {
 type c13kItem struct {
 	Kind string // rule | route | link
 	Key  string
+	Iif  string // rules
 	Src  string // rules: selector prefixes
 	Dst  string // rules, routes
 	Oif  int
@@ -286,7 +302,7 @@ func c13kSnapshot() (c13kDump, error) {
 			return nil, err
 		}
 		for _, r := range rules {
-			it := c13kItem{Kind: "rule", Src: c13NetStr(r.Src), Dst: c13NetStr(r.Dst)}
+			it := c13kItem{Kind: "rule", Src: c13NetStr(r.Src), Dst: c13NetStr(r.Dst), Iif: r.IifName}
 			it.Key = fmt.Sprintf("rule v%d %d: from %q to %q iif %q oif %q lookup %d", fam, r.Priority, it.Src, it.Dst, r.IifName, r.OifName, r.Table)
 			d[it.Key] = it
 		}
@@ -900,6 +916,12 @@ func (e *c13kEnv) doSetup(p int, when string) {
 		}
 		e.c.Label("stale-rules-before-setup")
 	}
+	if s.DP == c13DPPolicy && s.Pods[p].LegacyOwn {
+		for _, a := range e.podAddrs(p) {
+			e.legacyPair(a, fmt.Sprintf("gone%d", p))
+		}
+		e.c.Label("legacy-rules-own-before-setup")
+	}
 	if s.DP == c13DPPolicy && s.Pods[p].PrevOwner && s.V4 {
 		prev := fmt.Sprintf("prev%d", p)
 		if _, err := netlink.LinkByName(prev); err != nil {
@@ -963,6 +985,38 @@ func (e *c13kEnv) doSetup(p int, when string) {
 	}
 	e.live[p] = lv
 	e.everUp[p] = true
+}
+
+// legacyPair installs the rule pair of an older release for address a whose veth is gone.
+func (e *c13kEnv) legacyPair(a net.IP, goneLink string) {
+	_, hp, _ := net.ParseCIDR(c13kHostPrefix(a))
+	table := e.staleTable
+	if table == 0 {
+		table = 1999
+	}
+	from := netlink.NewRule()
+	from.Priority, from.Table, from.Src, from.IifName = fromContainerPriority, table, hp, goneLink
+	to := netlink.NewRule()
+	to.Priority, to.Table, to.Dst = toContainerPriority, unix.RT_TABLE_MAIN, hp
+	for _, r := range []*netlink.Rule{to, from} {
+		if err := netlink.RuleAdd(r); err != nil && !os.IsExist(err) {
+			e.scaffold(err, "legacy rule")
+		}
+	}
+}
+
+// legacyOwned: rules of the long-gone unrelated pod; nobody's, so a teardown may clean them up
+// (utils.CleanIPRules exists for that) without touching "another pod".
+func (e *c13kEnv) legacyOwned(it c13kItem) bool {
+	if it.Kind != "rule" || !e.s.LegacyUnrelated {
+		return false
+	}
+	for _, a := range []net.IP{c13kLegacy4, c13kLegacy6} {
+		if it.Src == c13kHostPrefix(a) || it.Dst == c13kHostPrefix(a) {
+			return true
+		}
+	}
+	return false
 }
 
 // ipvlanSetup is IPvlanDriver.Setup as far as this kernel can run it: there is no ipvlan link
@@ -1187,7 +1241,7 @@ func (e *c13kEnv) doTeardown(p int, partial int, when string) {
 	e.scaffold(err, "dump")
 	e.verifyGone(p, hostLink, post, when)
 	for _, k := range pre.keys() {
-		if e.podSpecific(p, hostLink, pre[k]) {
+		if e.podSpecific(p, hostLink, pre[k]) || e.legacyOwned(pre[k]) {
 			continue
 		}
 		if _, ok := post[k]; !ok {
@@ -1305,6 +1359,15 @@ func c13kRunOpt(c *vt.Ctx, s c13kScenario, noGuard bool) {
 			}
 		}
 		c.Label("decoys")
+	}
+	if s.LegacyUnrelated {
+		if s.V4 {
+			e.legacyPair(c13kLegacy4, "calilonggone")
+		}
+		if s.V6 {
+			e.legacyPair(c13kLegacy6, "calilonggone")
+		}
+		c.Label("legacy-rules-unrelated")
 	}
 
 	nSetup, nTeardownLive, nTeardownDead, maxLive := 0, 0, 0, 0
